@@ -32,6 +32,9 @@ pub enum OpK {
     UMul,
     UAdd,
     UScale(f64),
+    /// a user operation whose forward closure is the identity written the obvious way: it returns a
+    /// clone of its operand
+    UIdent,
     /// like UMul, but its derivative closure itself goes through `Array::op(.., Some(closure))`
     UMulN,
 }
@@ -52,7 +55,7 @@ impl OpK {
         }
     }
     pub fn is_user(&self) -> bool {
-        matches!(self, OpK::UMul | OpK::UAdd | OpK::UScale(_) | OpK::UMulN)
+        matches!(self, OpK::UMul | OpK::UAdd | OpK::UScale(_) | OpK::UMulN | OpK::UIdent)
     }
     /// polynomial with integer constants: integer inputs give exactly representable results
     pub fn name(&self) -> String {
@@ -82,6 +85,7 @@ impl OpK {
             OpK::UMulN => "umul-nested".into(),
             OpK::UAdd => "uadd".into(),
             OpK::UScale(c) => format!("uscale({})", c),
+            OpK::UIdent => "uident".into(),
         }
     }
 }
@@ -157,6 +161,7 @@ pub fn apply_ref_raw(op: &OpK, a: &[&T]) -> Result<T, RErr> {
             a[0].zip(a[1], move |x, y| x.scale(al).add(y))?
         }
         OpK::Neg => a[0].map(|x| x.neg()),
+        OpK::UIdent => a[0].map(|x| x),
         OpK::Scale(c) | OpK::UScale(c) => {
             let c = *c;
             a[0].map(move |x| x.scale(c))
@@ -291,6 +296,14 @@ pub fn user_op(op: &OpK, args: &[&Array], tag: usize) -> Array {
             });
             Array::op(args, fwd, Some(bwd))
         }
+        OpK::UIdent => {
+            let fwd: ForwardOp = Rc::new(|x: &[&Array]| x[0].clone());
+            let bwd: BackwardOp = Rc::new(move |_, t, x| {
+                log_push(tag, t, x);
+                vec![if t[0] { Some(plain(x.dimensions(), x.values().to_vec())) } else { None }]
+            });
+            Array::op(args, fwd, Some(bwd))
+        }
         OpK::UScale(s) => {
             let s = *s as Float;
             // the forward closure uses a differentiable library operation on its (possibly tracked) operand:
@@ -334,6 +347,6 @@ pub fn apply_impl(op: &OpK, a: &[&Array], tag: usize) -> Array {
             Array::matmul((a[0], *ta), (a[1], *tb), if *bias { Some(a[2]) } else { None })
         }
         OpK::Conv { sr, sc } => a[0].conv(a[1], (*sr, *sc)),
-        OpK::UMul | OpK::UAdd | OpK::UScale(_) | OpK::UMulN => user_op(op, a, tag),
+        OpK::UMul | OpK::UAdd | OpK::UScale(_) | OpK::UMulN | OpK::UIdent => user_op(op, a, tag),
     }
 }
